@@ -411,6 +411,40 @@ func checkC12(P *Prog, r *Result) {
 		if !errTested {
 			bad = append(bad, "the error returned by the Preprocess function is not turned into an issue")
 		}
+		// the same on the node's decision paths (helpers entered): an issue is never followed by the wrapped
+		// schema, a Preprocess error always becomes an issue, and without an issue the wrapped schema runs
+		if paths, capHit := P.nodePaths(fn); capHit {
+			bad = append(bad, "too many decision paths to enumerate")
+		} else {
+			nCalls := 0
+			for _, np := range paths {
+				if np.end == "PANIC" {
+					continue
+				}
+				issueAt, childAt, callAt := np.index("ISSUE"), -1, np.index("CALL-PREPROCESS")
+				for i, it := range np.items {
+					if it.kind == "CHILD" {
+						childAt = i
+					}
+				}
+				if callAt >= 0 {
+					nCalls++
+				}
+				switch {
+				case issueAt >= 0 && childAt > issueAt:
+					bad = append(bad, "the wrapped schema can still run after an issue was emitted  [path: "+np.String()+"]")
+				case callAt >= 0 && np.has("PREPROCESS-ERR", "T") && issueAt < 0:
+					bad = append(bad, "a Preprocess error does not become an issue  [path: "+np.String()+"]")
+				case callAt >= 0 && childAt >= 0 && !np.has("PREPROCESS-ERR", ""):
+					bad = append(bad, "the wrapped schema runs without the Preprocess error having been tested  [path: "+np.String()+"]")
+				case callAt >= 0 && issueAt < 0 && childAt < 0:
+					bad = append(bad, "the wrapped schema is skipped although the Preprocess function returned no error and no issue was emitted  [path: "+np.String()+"]")
+				}
+			}
+			if nCalls == 0 {
+				bad = append(bad, "no decision path calls the Preprocess function")
+			}
+		}
 		if len(bad) > 0 {
 			r.bad("C12/preprocess-skip", fname(fn), P.pos(fn.Pos()), strings.Join(uniqSorted(bad), "; "))
 		} else {
